@@ -45,7 +45,7 @@ var faultPoints = []struct {
 	{"write-file-created", []string{"close", "readonly"}, "first Encode"},
 	{"write-before-encode", []string{"close", "readonly", "readonly-once"}, "Encode"},
 	{"write-before-sync", []string{"close", "einval-once"}, "Sync"},
-	{"finalise-before-seek", []string{"close", "truncate"}, "Seek"},
+	{"finalise-before-seek", []string{"close", "truncate", "einval-once"}, "Seek"},
 	{"finalise-before-decode", []string{"close", "corrupt", "truncate"}, "Decode (Finalise)"},
 	{"pull-before-decode", []string{"close", "corrupt", "truncate"}, "Decode (Pull)"},
 }
@@ -77,10 +77,17 @@ func drainVariant(h mx.History) mx.History {
 	return h
 }
 
+// cleanVariant: the same workload on a sorter with AutoClean set whose caller pulls on after a failed
+// Pull until io.EOF: the directory is gone after that drain.
+func cleanVariant(h mx.History) mx.History {
+	h.AutoClean, h.PullThrough = true, true
+	return h
+}
+
 func workloads() []mx.History {
 	var ws []mx.History
 	for _, conc := range []bool{false, true} {
-		ws = append(ws, bigWorkload(conc), drainVariant(bigWorkload(conc)))
+		ws = append(ws, bigWorkload(conc), drainVariant(bigWorkload(conc)), cleanVariant(bigWorkload(conc)))
 		ws = append(ws, workload(2, 5, false, conc), workload(3, 9, true, conc), drainVariant(workload(2, 5, true, conc)))
 		if vlib.Thorough() {
 			ws = append(ws, workload(1, 4, false, conc), workload(4, 8, true, conc), workload(2, 4, true, conc), workload(3, 10, false, conc))
@@ -132,6 +139,13 @@ func executeWith(h mx.History, faults []sched.Fault, rules []sched.Rule, earlyCl
 					return &mx.Err{Kind: residueAfterDrain, Msg: fmt.Sprintf("after the event %q, with AutoClear set, the sorter's directory still holds %v", ev, fs)}
 				}
 				vlib.Count("autoclear-drains-checked-for-run-files", 1)
+			}
+			if h.AutoClean && strings.HasPrefix(ev, "drained") && strings.HasSuffix(ev, fmt.Sprint(" ", len(h.Cycles)-1)) && sc.Count("write-received") == sc.Count("write-return-buffer") {
+				// the last cycle of a sorter with AutoClean has been drained (whatever failed on the way)
+				if d := s.OwnDir(); d != "" {
+					return &mx.Err{Kind: residueAfterDrain, Msg: fmt.Sprintf("after the event %q, with AutoClean set, the sorter's directory %s still exists", ev, d)}
+				}
+				vlib.Count("autoclean-drains-checked-for-the-directory", 1)
 			}
 			return nil
 		})
@@ -233,6 +247,11 @@ func checkFault(c faultCase) *vlib.Failure {
 	}
 	if res.earlyResidue {
 		return vlib.Failf("directory-back-after-cleanup", "%s: CleanUp, called right after the error while background writers were still running, returned nil; once they had finished the directory %s existed again (sabotage applied: %v; events: %s)", what, res.residue, res.sc.Applied(), res.sc.Trace(60))
+	}
+	if c.Fault.Step == "finalise-before-seek" && c.Fault.Action == "einval-once" && c.Fault2 == nil && len(res.sc.Applied()) > 0 && !strings.HasSuffix(res.sc.Applied()[0], ": ") && res.out.FirstError == nil && res.panic == nil {
+		// a pipe was in the run file's place for the Seek: it failed for certain (the read after it,
+		// on the real file again, only sees the end of the run)
+		return vlib.Failf("failed-seek-not-reported", "%s: the Seek after the sabotage (%v) failed for certain, yet every Push, Finalise and Pull reported success", what, res.sc.Applied())
 	}
 	if c.Fault.Step == "write-before-sync" && c.Fault2 == nil && len(res.sc.Applied()) > 0 && strings.Contains(res.sc.Applied()[0], ": ") && !strings.HasSuffix(res.sc.Applied()[0], ": ") && res.out.FirstError == nil {
 		// the Sync that followed the sabotage cannot have succeeded (closed file, or a pipe in its place):
